@@ -20,7 +20,7 @@ LEVEL = "exploration"
 RULE = ("1-2 readers x 1-3 writers on a table with 0-3 prior snapshots (local and conditional-write S3, separate or shared handles). Reader = 1-2 successive "
         "reads on one handle, each from {scan, scan(parallel=2), scan_batches(1/3/1000), iter_records, row_count} with/without filter, projection, checksum "
         "verification; writer from {append, multi-append transaction, delete_files, explicit rollback after append_data, commit forced to fail at the pointer "
-        "write}. Interleavings are owned by the deterministic scheduler (yield at storage-API calls, lock syscalls, atomic publishes, S3 requests): exhaustive "
+        "write, append with one I/O error injected at the j-th low-level step AFTER the pointer rename}. Interleavings are owned by the deterministic scheduler (yield at storage-API calls, lock syscalls, atomic publishes, S3 requests): exhaustive "
         "single-preemption enumeration for fixed reader x writer scenarios and Hypothesis PCT schedules (<=3 change points) over generated scenarios. Oracle: "
         "from the pointer-flip log the sequence S0,S1,.. of committed current snapshots with the step interval during which each was current; a read over "
         "steps [a,b] must RETURN exactly rows(Si) (filtered/projected by the reference evaluator) for some i whose interval intersects [a,b]; successive reads "
@@ -80,6 +80,17 @@ def writer_fn(t, w, idx, base, world, sch=None):
             tx.append_data([{"k": 400 + idx, "s": "never"}])
             tx.rollback()
             return "rolled-back"
+
+        return f
+    if kind == "late_fault":
+        # an append during which ONE low-level step after the pointer rename fails (injected from run_case's on_event hook):
+        # whatever the writer then reports, readers must keep seeing whole snapshots that stay committed
+        def f():
+            try:
+                t.append_records([{"k": 700 + idx, "s": f"lf{idx}"}])
+                return "committed"
+            except OSError:
+                return "failed-late"
 
         return f
     if kind == "failing":
@@ -164,10 +175,31 @@ def run_case(case):
             for wi, wsp in enumerate(sc["writers"]):
                 if wsp["op"] == "failing" and w.kind != "local":
                     wsp = dict(wsp, op="rollback")
+                if wsp["op"] == "late_fault" and w.kind != "local":
+                    wsp = dict(wsp, op="append")
                 actors.append((f"w{wi}", writer_fn(tabs[len(sc["readers"]) + wi], wsp, wi, base, w, sch)))
             return actors
 
-        run = run_scheduled(world, make_actors, case["schedule"], seed=case.get("seed", 0))
+        late = {len(sc["readers"]) + wi: {"j": wsp.get("j", 1), "flipped": False, "n": 0, "done": False}
+                for wi, wsp in enumerate(sc["writers"]) if wsp["op"] == "late_fault" and world.kind == "local"}
+
+        def on_event(sch, a, phase, label, target, info):
+            stt = late.get(a.idx)
+            if stt is None or stt["done"]:
+                return
+            if not stt["flipped"]:
+                if phase == "after" and label == "sb:os.replace" and target == HINT:
+                    stt["flipped"] = True
+                return
+            if phase == "before" and (label.startswith("sb:os.") or label.startswith("lock:")):
+                stt["n"] += 1
+                if stt["n"] == stt["j"]:
+                    stt["done"] = True
+                    out["labels"].append("late-fault-fired")
+                    if not label.endswith("os.close"):
+                        raise OSError(5, "injected I/O error after the pointer rename")
+
+        run = run_scheduled(world, make_actors, case["schedule"], seed=case.get("seed", 0), on_event=on_event if late else None)
         out["labels"] += [f"world:{sc['world']}", f"topo:{sc['topology']}"] + (["empty-base"] if sc["nprior"] == 0 else [])
         if run.error is not None:
             out["violations"].append((f"scheduler/{type(run.error).__name__}", str(run.error)[:200]))
@@ -245,6 +277,7 @@ FIXED = [
     {"world": "local", "topology": "separate", "nprior": 2, "readers": [[read_spec(api="scan", fault=1), read_spec(api="row_count", fault=2)]], "writers": [{"op": "append"}]},
     {"world": "local", "topology": "separate", "nprior": 1, "readers": [[read_spec(api="iter_records", fault=3), read_spec(api="scan")]], "writers": [{"op": "failing"}, {"op": "append"}]},
     {"world": "local", "topology": "separate", "nprior": 2, "readers": [[read_spec(api="scan"), read_spec(api="row_count")]], "writers": [{"op": "replace", "which": 0}, {"op": "append"}]},
+    {"world": "local", "topology": "separate", "nprior": 1, "readers": [[read_spec(api="scan"), read_spec(api="row_count")]], "writers": [{"op": "late_fault", "j": 2}]},
 ]
 # two readers on ONE shared handle (threads sharing a Table) + a writer: anything a read leaves on the handle must not leak into the other reader
 RICH = [
@@ -301,7 +334,7 @@ def pct_case(draw):
             cols = draw(st.sampled_from([None, None, ["k"], ["s"]])) if api != "row_count" else None
             reads.append(read_spec(api=api, flt=flt, cols=cols, verify=draw(st.sampled_from([None, False])), fault=draw(st.sampled_from([0, 0, 0, 1, 2, 3]))))
         readers.append(reads)
-    writers = [{"op": draw(st.sampled_from(["append", "multi", "delete", "replace", "rollback", "failing"])), "which": draw(st.integers(0, 2))} for _ in range(draw(st.integers(1, 3)))]
+    writers = [{"op": draw(st.sampled_from(["append", "multi", "delete", "replace", "rollback", "failing", "late_fault"])), "which": draw(st.integers(0, 2)), "j": draw(st.integers(1, 8))} for _ in range(draw(st.integers(1, 3)))]
     n = len(readers) + len(writers)
     order = draw(st.permutations(list(range(n))))
     pre = [[draw(st.integers(1, 160)), draw(st.integers(0, n - 1))] for _ in range(draw(st.integers(0, 3)))]
